@@ -26,6 +26,7 @@ DIGESTS = [("petri_net/logic.py", "PetriNetLogic", "evaluate_petri_net"),
            ("petri_net/generator.py", "PetriNetGenerator", "generate_statements"),
            ("petri_net/generator.py", "PetriNetGenerator", "add_callback"),
            ("scheduler.py", "Scheduler", "fire_event"),
+           ("scheduler.py", "Scheduler", "_fire_event"),
            ("scheduler.py", "Scheduler", "start"),
            ("scheduler.py", "Scheduler", "on_task_started"),
            ("scheduler.py", "Scheduler", "on_service_started"),
